@@ -117,15 +117,17 @@ impl<'b, 'tx> BucketName<'b, 'tx> {
     }
 }
 
+// The bytes handed out here are only bounded by the database borrow ('tx), not by the
+// transaction borrow ('b), so they must not point into the memory map: copy the name.
 impl<'b, 'tx> ToBytes<'tx> for BucketName<'b, 'tx> {
     fn to_bytes(self) -> Bytes<'tx> {
-        self.name
+        Bytes::Bytes(bytes::Bytes::copy_from_slice(self.name.as_ref()))
     }
 }
 
 impl<'b, 'tx> ToBytes<'tx> for &BucketName<'b, 'tx> {
     fn to_bytes(self) -> Bytes<'tx> {
-        self.name.clone()
+        Bytes::Bytes(bytes::Bytes::copy_from_slice(self.name.as_ref()))
     }
 }
 
